@@ -20,7 +20,8 @@ func init() {
 		ShrinkColumns: true,
 		Gen:           genC03,
 		Check:         checkC03,
-		Required:      []string{"out_of_order_arrival", "sender_blocked_on_full_buffer"},
+		Required:      []string{},
+		Expected:      []string{"out_of_order_arrival", "sender_blocked_on_full_buffer"},
 	})
 	exhaustiveNote["C03/quick"] = "all 17x17 symbol pairs x 2 letter cases per file x 2 gap modes are enumerated (trials 0..63)"
 	exhaustiveNote["C03/thorough"] = exhaustiveNote["C03/quick"]
